@@ -143,8 +143,19 @@ def standin(rep: Report):
     cases = [c for c in dict.fromkeys(cases) if not any(x in c for x in XONSH_CHARS)]
     if rep.tier == "quick":
         cases = cases[:24000]
+    # indentation: every way of landing a dedent on / between the levels of blocks nested 1..4 deep, by spaces and by tabs
+    for depth in (1, 2, 3, 4):
+        for unit in ("  ", "    ", "\t"):
+            head = "".join(f"{unit * d}if a{d}:\n" for d in range(depth))
+            body = f"{unit * depth}x = 1\n"
+            width = len((unit * depth).expandtabs(8))
+            for col in range(0, width + 3):
+                cases.append(f"{head}{body}{' ' * col}y = 2\n")
+            cases.append(f"{head}{body}{unit * max(0, depth - 1)} \ty = 2\n")
+    cases = list(dict.fromkeys(cases))
     ref = oracle.run("cpython", [{"src": c, "mode": "exec"} for c in cases])
     rejected = [c for c, r in zip(cases, ref) if not r.get("ok") and r["exc"]["cls"] in ("SyntaxError", "IndentationError", "TabError")]
+    why = {c: r["exc"]["cls"] for c, r in zip(cases, ref) if not r.get("ok")}
     ours = oracle.run("parse", [{"src": c, "mode": "exec"} for c in rejected])
     si = StandIn("verdict-vs-ast.parse", f"{len(cases)} Python-lexicon inputs (all token strings of <= {k} tokens over {len(PY_TOKENS)}/26 tokens, {nmut} seeded "
                  f"single-token mutations and prefixes of {len(progs)} valid programs); those CPython rejects must be rejected")
@@ -152,7 +163,8 @@ def standin(rep: Report):
     si.distinct_nontrivial = len(rejected)
     for c, r in zip(rejected, ours):
         if r.get("ok"):
-            si.failures.append({"input": c, "site": "over-accept", "what": "CPython rejects with SyntaxError, this parser returns a tree", "observed": (r.get("dump") or "")[:200]})
+            site = "over-accept:TabError" if why.get(c) == "TabError" else "over-accept"
+            si.failures.append({"input": c, "site": site, "what": f"CPython rejects with {why.get(c)}, this parser returns a tree", "observed": (r.get("dump") or "")[:200]})
         elif r["exc"]["cls"] not in ("SyntaxError", "IndentationError", "TokenError"):
             pass        # totality is C03's business
     si.samples = rejected[:3]
